@@ -18,6 +18,7 @@ INVARIANT InvNoSelf
 INVARIANT InvStored
 INVARIANT InvLevels
 INVARIANT InvUpdateKeeps
+INVARIANT InvBlockCompose
 """
 
 
@@ -59,11 +60,18 @@ def run_case(c):
                 fails.append(("children_featuretype", [dec(e["x"]), got]))
     # iter_by_parent_childs: [parent] + children(parent)
     kids0 = {key(e["x"]): e["ids"] for e in c["kids"] if e["l"] == 0}
-    for unit in db.iter_by_parent_childs(featuretype="gene"):
-        head = enc(unit[0].id)
-        rest = [enc(f.id) for f in unit[1:]]
-        if sorted(rest) != sorted(kids0.get(key(head), [])):
-            fails.append(("iter_by_parent_childs", [dec(head), rest]))
+    # (ordering arguments may change the order of a unit's children, never which features they are)
+    for kw in ({}, {"order_by": "start"}, {"order_by": "end", "reverse": True}):
+        try:
+            units = list(db.iter_by_parent_childs(featuretype="gene", **kw))
+        except Exception as ex:  # noqa
+            fails.append(("iter_by_parent_childs_raised", [kw, type(ex).__name__]))
+            continue
+        for unit in units:
+            head = enc(unit[0].id)
+            rest = [enc(f.id) for f in unit[1:]]
+            if sorted(rest) != sorted(kids0.get(key(head), [])):
+                fails.append(("iter_by_parent_childs", [dec(head), rest, kw]))
     # an update with one unrelated feature leaves the relations as they were
     try:
         from . import gen_db as G2
@@ -85,6 +93,74 @@ def run_case(c):
             if sorted(got) != sorted(e["ids"]) and not any(cl == "relations_after_update" for cl, _ in fails):
                 fails.append(("children_feature_arg", [dec(e["x"]), got]))
     return fails
+
+
+def scaled_forest(cases, picks):
+    """MC_DB02!InvBlockCompose lifts the model's answers to big files: block k is case picks[k] with every name suffixed _k.
+    Returns (lines, expected relation rows, ids in file order)."""
+    lines, rels, ids = [], [], []
+    for k, ci in enumerate(picks):
+        c = cases[ci]
+        suf = "_%d" % k
+        for l in c["lines"]:
+            i = dec(l["id"]) + suf
+            ids.append(i)
+            ps = [dec(p) + suf for p in l["parents"]]
+            lines.append("chr1\ts\t%s\t1\t9\t.\t+\t.\tID=%s%s" % (dec(l["ftype"]), i, (";Parent=" + ",".join(ps)) if ps else ""))
+        for r in c["rels"]:
+            rels.append([dec(r[0]) + suf, dec(r[1]) + suf, r[2]])
+    return lines, rels, ids
+
+
+def run_scaled(lines, rels, ids, path, probe):
+    """import the big file into a FILE database, reopen it, compare the whole relations table, the stored order, and children/parents of the probed names"""
+    import gffutils
+    try:
+        with dbio.quiet():
+            db = gffutils.create_db("\n".join(lines) + "\n", path, from_string=True, force=True)
+        db.conn.close()
+        db = gffutils.FeatureDB(path)
+        rows = sorted([p, c, l] for p, c, l in db.conn.execute("SELECT parent, child, level FROM relations").fetchall())
+        if rows != sorted(rels):
+            missing = [r for r in sorted(rels) if r not in rows][:3]
+            extra = [r for r in rows if r not in sorted(rels)][:3]
+            return "scaled:relations_table", {"missing": missing, "extra": extra, "n_lines": len(lines)}
+        got = [f.id for f in db.all_features()]
+        if got != ids:
+            return "scaled:stored_features", {"n_stored": len(got), "n_lines": len(ids)}
+        if db.count_features_of_type() != len(ids):
+            return "scaled:count", {"count": db.count_features_of_type()}
+        kids, pars = {}, {}
+        for p, c, l in rels:
+            kids.setdefault((p, l), set()).add(c)
+            pars.setdefault((c, l), set()).add(p)
+        stored = set(ids)
+        for x in probe:
+            for l in (1, 2):
+                if x in stored:
+                    g = [f.id for f in db.children(x, level=l)]
+                    if len(set(g)) != len(g) or set(g) != (kids.get((x, l), set()) & stored):
+                        return "scaled:children", {"x": x, "level": l, "observed": g[:10]}
+                    g = [f.id for f in db.parents(x, level=l)]
+                    if len(set(g)) != len(g) or set(g) != (pars.get((x, l), set()) & stored):
+                        return "scaled:parents", {"x": x, "level": l, "observed": g[:10]}
+        # deleting a few hundred features at once removes exactly their rows (and the rows mentioning them)
+        gone = set(ids[::7])
+        with dbio.quiet():
+            db.delete(sorted(gone), make_backup=False)
+        rows = sorted([p, c, l] for p, c, l in db.conn.execute("SELECT parent, child, level FROM relations").fetchall())
+        want = sorted(r for r in rels if r[0] not in gone and r[1] not in gone)
+        if rows != want:
+            return "scaled:relations_after_bulk_delete", {"n_rows": len(rows), "expected": len(want)}
+        if [f.id for f in db.all_features()] != [i for i in ids if i not in gone]:
+            return "scaled:features_after_bulk_delete", None
+        db.conn.close()
+        return None, None
+    except Exception as e:  # noqa
+        return "scaled:raised:" + type(e).__name__, {"message": str(e)[:200]}
+    finally:
+        if os.path.exists(path):
+            os.unlink(path)
 
 
 def nontrivial(c):
@@ -118,14 +194,30 @@ def run(ctx):
     res = core.pmap(run_case, cases)
     for c, fails in zip(cases, res):
         for clause, got in fails[:1]:
-            ctx.violation({"lines": [dec(l["text"]) for l in c["lines"]]}, clause, {"observed": got, "expected_rels": c["rels"]})
+            ctx.violation({"lines": [dec(l["text"]) for l in c["lines"]], "raw_case": c}, clause, {"observed": got, "expected_rels": c["rels"]})
         ctx.count([[l["id"], l["parents"]] for l in c["lines"]], nontrivial(c))
     ctx.traces += len(cases)
     ctx.sample({"file": [dec(l["text"]) for l in cases[0]["lines"]], "expected_relations": [[dec(r[0]), dec(r[1]), r[2]] for r in cases[0]["rels"]]})
     from . import gen_db
     gen_db.random_forests(ctx, 1500 if thorough else 150)
+    # D3: scaled forests (thousands of lines): the model's answers per block, composed by InvBlockCompose
+    for k in range(3 if thorough else 1):
+        picks = [ctx.rng.randrange(len(cases)) for _ in range(2500 if thorough else 700)]
+        lines, rels, ids = scaled_forest(cases, picks)
+        probe = ctx.rng.sample(ids, 150)
+        bad, detail = run_scaled(lines, rels, ids, ctx.path("c02_scaled_%d.db" % k), probe)
+        if bad:
+            ctx.violation({"scaled": {"lines": lines, "rels": rels, "ids": ids, "probe": probe}, "n_lines": len(lines)}, bad, detail)
+        ctx.count(("scaled", picks[:50]), True)
+        ctx.traces += 1
+        ctx.extra["scaled_forest_lines"] = len(lines)
 
 
 def replay(ctx, rec):
     from . import gen_db
+    if rec["case"].get("raw_case"):
+        return bool(run_case(rec["case"]["raw_case"]))
+    sc = rec["case"].get("scaled")
+    if sc:
+        return run_scaled(sc["lines"], sc["rels"], sc["ids"], ctx.path("c02_scaled_replay.db"), sc["probe"])[0] is not None
     return gen_db.replay_lines(ctx, rec)
